@@ -32,6 +32,9 @@ pub enum SetupPolicy {
     RabbitsFirst,
     RabbitsLast,
     ExhaustOne(Kind),
+    /// the first row is the run-index-th of the 216,481 possible first rows; the second row
+    /// places rabbits first (index 0..8 of the script), the rest uniformly
+    Scripted([Kind; 8]),
 }
 
 /// workload mix of a property's check (weights and menus the per-run swarm draws from)
@@ -141,6 +144,14 @@ impl RandomSource {
                     }
                 }
                 SetupPolicy::ExhaustOne(k) => find(k).unwrap_or(uniform),
+                SetupPolicy::Scripted(row) => {
+                    let placed: usize = KINDS.iter().map(|k| count(&w.m.board, side, *k)).sum();
+                    if placed < 8 {
+                        find(row[placed]).unwrap_or(uniform)
+                    } else {
+                        find(Kind::R).unwrap_or(uniform)
+                    }
+                }
             };
         }
         let pol = self.sw.policy[side as usize];
@@ -572,4 +583,44 @@ pub fn execute(ctx: &mut Ctx, eq: &mut EqTable, start: &Start, src: &mut dyn Sou
         Ok(())
     })();
     RunOutcome { stop: r.err(), op_index, final_diagram: fin.0, final_turn_start: fin.1 }
+}
+
+/// number of ways to complete a row of `n` more placements when `used[k]` pieces of kind k are down
+fn rows_from(n: usize, used: [usize; 6]) -> u64 {
+    if n == 0 {
+        return 1;
+    }
+    let mut t = 0;
+    for k in KINDS {
+        if used[k as usize] < k.quota() {
+            let mut u = used;
+            u[k as usize] += 1;
+            t += rows_from(n - 1, u);
+        }
+    }
+    t
+}
+pub const FIRST_ROWS: u64 = 216_481;
+/// the `rank`-th first row (8 placements) in lexicographic order of KINDS
+pub fn first_row(rank: u64) -> [Kind; 8] {
+    let mut r = rank % FIRST_ROWS;
+    let mut used = [0usize; 6];
+    let mut out = [Kind::R; 8];
+    for (i, slot) in out.iter_mut().enumerate() {
+        for k in KINDS {
+            if used[k as usize] >= k.quota() {
+                continue;
+            }
+            let mut u = used;
+            u[k as usize] += 1;
+            let c = rows_from(7 - i, u);
+            if r < c {
+                *slot = k;
+                used = u;
+                break;
+            }
+            r -= c;
+        }
+    }
+    out
 }
